@@ -263,6 +263,30 @@ func runC02(c *Ctx) {
 	ruleIsWaitTable(c, "C02.6")
 	ruleNoEarlyExit(c, "C02.6", "(*Graph).buildPoolStmtsSimple", "generateStmts", "(*InjectorChainStmt).Stmt")
 
+	ruleTypeIdentity(c, "C02.7", genPkg)
+	ruleGuardReceivers(c, "C02.6")
+	ruleFieldAccessSync(c, "C02.6")
+	ruleSnapshotReadOnly(c, "C02.6")
+	// user identifiers reach the allocator: a copied provider expression must not be captured by a generated local
+	{
+		sub := &Ctx{Prop: c.Prop, Tier: c.Tier, L: c.L, FuncsSeen: c.FuncsSeen, Extra: c.Extra, RoleNames: c.RoleNames}
+		alloc := map[*ssa.Function]bool{}
+		for _, fn := range pkgFuncs(L, genPkg) {
+			if strings.HasSuffix(fn.String(), "VarPool).GetName") || strings.HasSuffix(fn.String(), "VarPool).Get") || strings.HasSuffix(fn.String(), "VarPool).GetChannel") {
+				alloc[fn] = true
+			}
+		}
+		c12Registration(sub, alloc)
+		for _, o := range sub.Obls {
+			o.Rule = "C02.8"
+			c.Obls = append(c.Obls, o)
+		}
+		for _, f := range sub.Finds {
+			f.Rule = "C02.8"
+			c.Finds = append(c.Finds, f)
+		}
+	}
+
 	// ---- C02.5 checked-in pairs
 	declProviders := coDeclarations(L)
 	coRun(c, "C02.5", func(c *Ctx, rule string, f *coFunc, g *coGraph) { coWiring(c, rule, f, g, declProviders) })
